@@ -299,10 +299,10 @@ MANIFEST_TEXT['C18'] = {
     'level': 'PARTIAL (necessary condition, decided for all values and shapes within the codec bounds). For every type of the codec corpus the engine executes, after the type has been registered and one size+encode of the same '
              'value has warmed the per-type pools, EncodedSize(ptr) and EncodeObject(buf, nil, ptr) with a sufficient buffer on a symbolic value, and a monitor counts every executed operation that allocates on the heap '
              'WHATEVER the compiler\'s escape analysis decides: append beyond capacity (growslice), make with a non-constant length or capacity, make(chan), go statements, the linknamed runtime.mallocgc, reflect.New / MakeMap / '
-             'MakeMapWithSize, a sync.Pool miss (New called), fmt.Sprintf/Sprint/Errorf, strings.Split/Join, sort.Slice. The assertion "no such operation is executed" is checked on every path (all shapes up to the bounds, '
+             'MakeMapWithSize, a sync.Pool miss (New called), fmt.Sprintf/Sprint/Errorf, strings.Split/Join, sort.Slice, and every executed allocation of a local variable whose address is passed (directly or through unsafe.Pointer / type conversions) to a call through a func value loaded from memory - the one rule of gc\'s escape analysis that holds regardless of inlining (arguments of unknown callees escape). The assertion "no such operation is executed" is checked on every path (all shapes up to the bounds, '
              'all contents symbolic). A witness is confirmed natively by the runtime.MemStats.Mallocs delta over the same region (minimum of 5 repetitions).',
     'ref': 'DESIGN.md s7 C18',
-    'note': 'Outside the claim, and the reason this is partial: allocations that exist only because the gc compiler\'s escape analysis moves a variable, a closure, an interface box or the reflect.MapIter to the heap are invisible '
+    'note': 'Outside the claim, and the reason this is partial: allocations that exist only because the gc compiler\'s escape analysis moves a variable, a closure, an interface box or the reflect.MapIter to the heap are, apart from the indirect-call rule above, invisible '
             'at the go/ssa level this technique encodes (go/ssa marks every address-taken local as heap, which would be a false alarm on the unchanged tree), so a change that makes a local escape is NOT detected by the solver-based check; '
             'if the native translator-validation run of the sampled jobs measures an allocation the engine did not count, the check stops with an engine/native disagreement (exit 2), not with a verdict. EncodedSize/EncodeObject called by value, '
             'buffers that are too short and error paths are excluded by the property. sync.Pool is modelled as LIFO reuse (no GC-driven eviction). ' + _CODEC_NOTE,
